@@ -22,7 +22,7 @@ ASSUMPTIONS = [
     'where Python raises (missing key, index out of range, indexing a scalar) the query is expected to give NULL / not select the row',
     'an SQL error is accepted only for a negative JSON index on SQLite with JSON1 (json_extract rejects [-1]; documented limitation, an error and not different rows)',
     'indexing into a JSON string (Python would return a character) is not a JSON path access: expected NULL like indexing any scalar',
-    'floats in documents are plain decimals (no exponent, no nan/inf); strings without control characters',
+    'floats in documents are plain decimals as json.dumps writes them (no exponent, no nan/inf; a zero is 0.0 or -0.0: a document written by something else as 0.00 would still be truthy on SQLite); strings without control characters',
     'comparisons of JSON items with scalars are exercised by the search only (ints and strs), not in the Coq model',
 ]
 RULE = ('correspondence: generated key lists (identifier-like, needing quotes: spaces, dots, brackets, empty, leading digit, non-ASCII, backslash; negative ints), malformed path texts, '
@@ -255,7 +255,8 @@ def correspondence(ctx):
                     assert ast[0] == 'ARRAY_INDEX', ast[0]
                     for n in (0, 1, 3):
                         got = c29_impl.eval_ast(ast[2], env, n)
-                        add('index_ast', '(index_expr %s %s %s =? %s) && (index_const %s %s %s =? %s)' % (cz(p1), cz(n), cz(v), cz(got), cz(p1), cz(n), cz(v), cz(got)), [prov, src, env, n], got)
+                        if prov == 'sqlite': add('index_ast', '(index_sqlite %s %s =? %s)' % (cz(n), cz(v), cz(got)), [prov, src, env, n], got)
+                        else: add('index_ast', '(index_expr %s %s %s =? %s) && (index_const %s %s %s =? %s)' % (cz(p1), cz(n), cz(v), cz(got), cz(p1), cz(n), cz(v), cz(got)), [prov, src, env, n], got)
                 except Exception as e:
                     disagreements.append({'what': 'index AST not recognised: %s: %s' % (type(e).__name__, e), 'input': [prov, src, env]})
         for a in (None, -5, -1, 0, 2, 6):
@@ -270,12 +271,12 @@ def correspondence(ctx):
                     for n in (0, 3):
                         if a is not None:
                             got = c29_impl.eval_ast(ast[2], env, n)
-                            add('slice_ast', '(index_expr %s %s %s =? %s)' % (cz(p1), cz(n), cz(a), cz(got)), [prov, src, env, n, 'start'], got)
+                            add('slice_ast', ('(index_sqlite %s %s =? %s)' % (cz(n), cz(a), cz(got))) if prov == 'sqlite' else ('(index_expr %s %s %s =? %s)' % (cz(p1), cz(n), cz(a), cz(got))), [prov, src, env, n, 'start'], got)
                         elif ast[2] is not None:
                             disagreements.append({'what': 'omitted slice start is not None in the AST', 'input': [prov, src]})
                         if b is not None:
                             got = c29_impl.eval_ast(ast[3], env, n)
-                            add('slice_ast', '(index_expr 0 %s %s =? %s)' % (cz(n), cz(b), cz(got)), [prov, src, env, n, 'stop'], got)
+                            add('slice_ast', ('(index_sqlite %s %s =? %s)' % (cz(n), cz(b), cz(got))) if prov == 'sqlite' else ('(index_expr 0 %s %s =? %s)' % (cz(n), cz(b), cz(got))), [prov, src, env, n, 'stop'], got)
                 except Exception as e:
                     disagreements.append({'what': 'slice AST not recognised: %s: %s' % (type(e).__name__, e), 'input': [prov, src, env]})
     for n in range(0, 5 if ctx.thorough else 4):
@@ -536,10 +537,10 @@ def replay(ctx, data):
 
 
 LEVEL_TEXT = ('Machine-checked proof (Coq 8.16.1) over a model of Pony\'s JSON / array query helpers: the path text built by eval_json_path is read back by SQLite\'s _parse_path '
-              'as the same keys for all int and str keys without a double quote; _traverse returns a value exactly where Python indexing of the decoded document does (raising only '
-              'where Python raises); key membership and list length after a path; JSON truthiness by the textual NOT IN list equals Python truthiness for every value but float zeros; '
-              'array index and slice through ArrayMixin._index and the SQLite helpers equal Python indexing / slicing except for bounds below -len that wrap twice; the PostgreSQL '
-              'array path is right for all indexes under the documented subscript semantics. The complements are refuted by witnesses and recorded as findings.')
+              'as the same keys for all int and str keys without a double quote; _traverse returns a value exactly where Python indexing of the decoded document does; key membership and '
+              'list length after a path; JSON truthiness by the textual NOT IN list equals Python truthiness (float zeros as json.dumps writes them included, since fix 8c0b3e1); array index '
+              'and slice on SQLite equal Python indexing / slicing for every index and bound (since fix 3338ea9); the PostgreSQL array path and jsonb truthiness are right under the documented '
+              'semantics. The remaining deviations (key quoting, len of dict / str, CAST-based ==, TypeError escaping the fallback) are refuted by witnesses and recorded as findings.')
 LEVEL_NOTE = ('Partial: the model is hand-written (tied by vm_compute correspondence with the real functions and index ASTs, and by real queries on SQLite with JSON1 and with the '
               'fallback forced); JSON comparison operators, wildcards, JSON_CONCAT and PostgreSQL JSON functions are not modelled (PostgreSQL only as path text); \\w beyond ASCII is an oracle.')
 TECHNIQUE = 'Coq proofs (decimal print/parse round trip, scanner lemmas, structural induction over paths, seg normal form + lia for slices); vm_compute correspondence; end-to-end differential search on SQLite in two modes'
